@@ -137,6 +137,9 @@ func (m *MonC29) AfterBlock(w *World, b *BlockCtx) {
 	keep := m.synced[:0]
 	for _, s := range m.synced {
 		res := s.t.Node.ExecBlock(b.Req, nil)
+		if res.Err == nil {
+			s.t.Node.App.VerifWaitSnapshot() // the restored node takes snapshots too
+		}
 		if res.Err != nil {
 			w.Report("C29", "state-sync", "restored-node-panics", fmt.Sprintf("node restored from the snapshot of height %d panics in block %d: %v\n%s", s.from, b.Height, res.Err, trimStack(res.Err.Stack)), b.Height)
 			return
